@@ -11,6 +11,9 @@ variable {α : Type}
 /-- bucket ids strictly ascending -/
 def Asc (bs : List (Int × List α)) : Prop := bs.Pairwise (fun a b => a.1 < b.1)
 
+instance (bs : List (Int × List α)) : Decidable (Asc bs) :=
+  inferInstanceAs (Decidable (bs.Pairwise (fun a b => a.1 < b.1)))
+
 theorem asc_nil : Asc ([] : List (Int × List α)) := List.Pairwise.nil
 
 theorem asc_cons {p : Int × List α} {bs : List (Int × List α)} :
